@@ -110,6 +110,7 @@ func checkC06(c c06Case, o *Obs) error {
 	o.Label("measure:" + c.Measure)
 	o.LabelIf(c.Table, "table")
 	o.LabelIf(len(c.Targets) > 12, "targets>12")
+	o.LabelIf(len(c.Targets[0].Seq) >= 32000, "genome-sized-near-ties")
 	o.LabelIf((c.Mode == "d" || c.Mode == "nd") && c.D >= 1e9, "max-dist-huge")
 	o.LabelIf(sharesName(c.Queries, c.Targets), "query-named-like-a-target")
 	o.LabelIf(len(c.Targets[0].Seq) >= 64, "width>=64")
@@ -394,7 +395,59 @@ func checkC06(c c06Case, o *Obs) error {
 // genC06 builds targets that force ties: copies, column permutations are replaced here by
 // "same differences at other columns", same distance with different completeness (ambiguity padding
 // in columns that do not change the distance), all-N / heavily ambiguous targets anywhere.
+// genC06NearTies: genome-sized rows whose distances to the query differ only in the tenth decimal and beyond (one N more or
+// less among tens of thousands of compared columns): close is not equal, the nearer target wins.
+func genC06NearTies(t *rapid.T) c06Case {
+	c := c06Case{Measure: rapid.SampledFrom([]string{"raw", "raw", "tn93"}).Draw(t, "measure"), Threads: rapid.SampledFrom([]int{1, 2}).Draw(t, "threads")}
+	w := rapid.SampledFrom([]int{32000, 40000, 70000}).Draw(t, "nearTieWidth")
+	unit := genBalancedTarget(t, 997)
+	base := make([]byte, w)
+	for i := range base {
+		base[i] = unit[i%997]
+	}
+	// the query has a few unresolved columns of its own: a target's N there costs completeness but no compared column, an N
+	// elsewhere costs both, a two-fold code costs a compared column and less completeness - so "further" and "less complete"
+	// come apart
+	q := append([]byte(nil), base...)
+	var qN []int
+	for k := rapid.IntRange(0, 3).Draw(t, "nQueryN"); k > 0; k-- {
+		p := rapid.IntRange(0, w-1).Draw(t, "queryNPos")
+		q[p] = 'N'
+		qN = append(qN, p)
+	}
+	c.Queries = []FaRec{{ID: "q0", Seq: string(q)}}
+	nT := rapid.IntRange(2, 6).Draw(t, "nT")
+	nSNP := rapid.IntRange(1, 2).Draw(t, "nSNP")
+	for i := 0; i < nT; i++ {
+		b := append([]byte(nil), base...)
+		for k := nSNP; k > 0; k-- {
+			p := rapid.IntRange(0, w-1).Draw(t, "snpPos")
+			b[p] = transitionOf(base[p])
+		}
+		for k := rapid.IntRange(0, 2).Draw(t, "nN"); k > 0; k-- {
+			p := rapid.IntRange(0, w-1).Draw(t, "nPos")
+			if len(qN) > 0 && rapid.Bool().Draw(t, "underQueryN") {
+				p = qN[rapid.IntRange(0, len(qN)-1).Draw(t, "whichQueryN")]
+			}
+			sym := byte('N')
+			if rapid.IntRange(0, 2).Draw(t, "twoFold") == 0 {
+				sym = symbolForSet(mustSet(base[p], false) | mustSet(transitionOf(base[p]), false)) // R or Y: contains the base
+			}
+			b[p] = sym
+		}
+		c.Targets = append(c.Targets, FaRec{ID: fmt.Sprintf("t%d", i), Seq: string(b)})
+	}
+	c.Mode = rapid.SampledFrom([]string{"plain", "n", "n"}).Draw(t, "mode")
+	c.Table = rapid.Bool().Draw(t, "table")
+	c.K = rapid.IntRange(1, nT).Draw(t, "k")
+	c.TLay = Layout{FinalNL: true, Width: rapid.SampledFrom([]int{0, 60}).Draw(t, "wrap")}
+	return c
+}
+
 func genC06(t *rapid.T) c06Case {
+	if oneIn(t, "nearTies", 120) {
+		return genC06NearTies(t)
+	}
 	c := c06Case{Measure: rapid.SampledFrom([]string{"raw", "snp", "snp", "tn93"}).Draw(t, "measure")}
 	c.Threads = rapid.SampledFrom([]int{0, 1, 2, 16}).Draw(t, "threads")
 	w := rapid.IntRange(6, 30).Draw(t, "width")
